@@ -82,7 +82,14 @@ def fem_mesh_cases(rng, tier, n_tria, n_tet, max_v=36, allow_f32=True, far=False
         if min(abs(gm.tet_vol6(v, r)) for r in t) < (2e-2 if vd == "float32" else 1e-3):
             continue
         r = rng.random()
-        if r < 0.15 and 2 * len(v) <= max_v and 2 * len(t) <= 70:
+        ktet = len([c for c in cases if c["kind"] == "tet"])
+        if ktet % 6 == 1:
+            # always present, whatever the seed: the same element shapes in micrometre ... kilometre units (float64)
+            sc = [1e-6, 1e-4, 50.0, 1e3][(ktet // 6) % 4]
+            v = (np.array(v) * sc).tolist()
+            fam = fam + "_scaled"
+            vd = "float64"
+        elif r < 0.15 and 2 * len(v) <= max_v and 2 * len(t) <= 70:
             f = rng.choice([1e-2, 5e-3])
             v2 = (np.array(v) * f + np.array([5.0, 0, 0])).tolist()
             v, t = v + v2, t + [[i + len(v) for i in row] for row in t]
